@@ -10,32 +10,33 @@ open Chalk.FixedPoint.Cyc (JE JA MinLe InCache InGraph Def Undef flagAt StackExt
   updateNode_mid take_mid afterRound solveNewSubgoal_step solveNewSubgoal_tick_panic solveNewSubgoal_iter_panic)
 
 section
-variable {inst : Instance} {P : Nat → Prop} {dom : List Nat} {lvl : Nat → Nat} {rec : SubSolver} {cfg : Cfg}
+variable {inst : Instance} {P : Nat → Prop} {dom : List Nat} {lvl : Nat → Nat} {fx : Bool} {rec : SubSolver} {cfg : Cfg}
 
 /-- what the loop of `solve_new_subgoal` returns: the situation after its last iteration -/
-def LoopPost (inst : Instance) (P : Nat → Prop) (dom : List Nat) (lvl : Nat → Nat) (s0 : St) (g : Nat) (sub : Min) (s3 : St) : Prop :=
-  ∃ st' s1 old cur new, After inst P dom lvl s0 st' s1 g old cur sub new ∧
-    (¬ flagAt s1.stack s0.stack.length ∨ old = cur) ∧
-    s3.graph = s0.graph ++ (⟨g, cur, some s0.stack.length, some s0.graph.length⟩ : Node) :: new ∧
+def LoopPost (inst : Instance) (P : Nat → Prop) (dom : List Nat) (lvl : Nat → Nat) (fx : Bool) (s0 : St) (g : Nat) (sub : Min) (s3 : St) : Prop :=
+  ∃ st' s1 old cur new new3, After inst P dom lvl fx s0 st' s1 g old cur sub new ∧
+    ((new3 = new ∧ (¬ flagAt s1.stack s0.stack.length ∨ old = cur)) ∨ (new3 = [] ∧ cur = .ambig)) ∧
+    s3.graph = s0.graph ++ (⟨g, cur, some s0.stack.length, some s0.graph.length⟩ : Node) :: new3 ∧
     s3.stack.length = s0.stack.length + 1 ∧ (∀ i, i < s0.stack.length → s3.stack[i]? = s1.stack[i]?) ∧
     Rest s1 s3
 
-theorem loop_sem (hyp : MHyp inst P dom lvl) (hrec : SubSpec inst P dom lvl rec) {s0 : St} {g : Nat} :
-    ∀ (r : Nat) (st : St) (sub : Min) (s3 : St), LoopSt inst P dom lvl s0 g st →
+theorem loop_sem (hyp : MHyp inst P dom lvl) (h3 : cfg.fixF3 = true) (h10 : fx = true → cfg.fixF10 = true)
+    (hrec : SubSpec inst P dom lvl fx rec) {s0 : St} {g : Nat} :
+    ∀ (r : Nat) (st : St) (sub : Min) (s3 : St), LoopSt inst P dom lvl fx s0 g st →
       solveNewSubgoal inst cfg rec g s0.stack.length s0.graph.length r st = .ok sub s3 →
-      LoopPost inst P dom lvl s0 g sub s3
+      LoopPost inst P dom lvl fx s0 g sub s3
   | 0, st, sub, s3, _, h => by simp [solveNewSubgoal] at h
   | r + 1, st, sub, s3, L, h => by
     cases ht : tick cfg st with
     | panic site st0 => rw [solveNewSubgoal_tick_panic _ _ _ _ _ _ _ _ _ _ ht] at h; cases h
     | ok u st0 =>
       have e0 := tick_ok cfg st st0 ht
-      have L0 : LoopSt inst P dom lvl s0 g st0 := by rw [e0]; exact L.work _
+      have L0 : LoopSt inst P dom lvl fx s0 g st0 := by rw [e0]; exact L.work _
       cases hi : solveIteration inst cfg rec g none st0 with
       | panic site s1 => rw [solveNewSubgoal_iter_panic _ _ _ _ _ _ _ _ _ _ _ ht hi] at h; cases h
       | ok r1 s1 =>
         obtain ⟨cur, m⟩ := r1
-        obtain ⟨i1, hs, _, hk, hf⟩ := solveIteration_sem hyp hrec g L.gdom none st0 cur m s1 L0.inv L0.gtop hi
+        obtain ⟨i1, hs, _, hk, hf⟩ := solveIteration_sem hyp h3 hrec g L.gdom none st0 cur m s1 L0.inv L0.gtop hi
         obtain ⟨old, new, A⟩ := After.intro L0 i1 hs hf hk
         have hlt : s0.stack.length < s1.stack.length := by rw [A.slen]; exact Nat.lt_succ_self _
         have he : s1.stack[s0.stack.length]? = some s1.stack[s0.stack.length] := List.getElem?_eq_getElem hlt
@@ -55,31 +56,50 @@ theorem loop_sem (hyp : MHyp inst P dom lvl) (hrec : SubSpec inst P dom lvl rec)
             simp only [h1, h2, Bool.and_false, Bool.false_eq_true, if_true, if_false, Res.ok.injEq] at h
             obtain ⟨hm, hs3⟩ := h
             subst hm; subst hs3
-            refine ⟨st0, s1, old, old, new, A, Or.inr rfl, hgr, ?_, ?_, ⟨rfl, rfl, rfl, rfl⟩⟩
+            refine ⟨st0, s1, old, old, new, new, A, Or.inl ⟨rfl, Or.inr rfl⟩, hgr, ?_, ?_, ⟨rfl, rfl, rfl, rfl⟩⟩
             · show (setCycle false s0.stack.length s1.stack).length = _
               rw [setCycle_length, A.slen]
             · intro i hi
               show (setCycle false s0.stack.length s1.stack)[i]? = _
               exact setCycle_getElem?_ne _ _ _ _ (Nat.ne_of_lt hi)
-          · have hamb : cur ≠ .ambig := by
-              cases A.cur_val with
-              | inl e => rw [e]; exact topOf_ne_ambig inst g
-              | inr e => rw [e]; exact botOf_ne_ambig inst g
+          · by_cases hamb : cur = .ambig
+            · -- interrupted: the loop stops, what was computed from the old answer is rolled back (F10)
+              subst hamb
+              have h1 : reachedFixedPoint old .ambig = true := by simp [reachedFixedPoint]
+              have h2 : (old != .ambig) = true := by simpa using hoc
+              have h10' : cfg.fixF10 = true := by
+                cases A.i1.fixes with
+                | inl e => exact h10 e
+                | inr e =>
+                  have := A.amb rfl
+                  rw [e.2] at this
+                  cases this
+              simp only [h1, h2, h10', Bool.and_self, if_true, Res.ok.injEq] at h
+              obtain ⟨hm, hs3⟩ := h
+              subst hm; subst hs3
+              refine ⟨st0, s1, old, .ambig, new, [], A, Or.inr ⟨rfl, rfl⟩, ?_, ?_, ?_, ⟨rfl, rfl, rfl, rfl⟩⟩
+              · show (updateNode _ s0.graph.length s1.graph).take (s0.graph.length + 1) = _
+                rw [hgr, take_mid]
+              · show (setCycle false s0.stack.length s1.stack).length = _
+                rw [setCycle_length, A.slen]
+              · intro i hi
+                show (setCycle false s0.stack.length s1.stack)[i]? = _
+                exact setCycle_getElem?_ne _ _ _ _ (Nat.ne_of_lt hi)
             have h1 : reachedFixedPoint old cur = false := by
               simp [reachedFixedPoint, hoc, hamb]
             simp only [h1, Bool.false_eq_true, if_false] at h
-            have L2 : LoopSt inst P dom lvl s0 g
+            have L2 : LoopSt inst P dom lvl fx s0 g
                 (rollbackTo (s0.graph.length + 1) (afterRound s0.stack.length s0.graph.length cur s1)) := by
               refine A.restart ⟨rfl, rfl, rfl, rfl⟩ rfl ?_
               show (updateNode _ s0.graph.length s1.graph).take (s0.graph.length + 1) = _
               rw [hgr, take_mid]
               rfl
-            exact loop_sem hyp hrec r _ sub s3 L2 h
+            exact loop_sem hyp h3 h10 hrec r _ sub s3 L2 h
         · have hc' : e.cycle = false := by cases h' : e.cycle <;> simp_all
           simp only [hc', Bool.not_false, if_true, Res.ok.injEq] at h
           obtain ⟨hm, hs3⟩ := h
           subst hm; subst hs3
-          refine ⟨st0, s1, old, cur, new, A, Or.inl ?_, hgr, A.slen, fun _ _ => rfl, ⟨rfl, rfl, rfl, rfl⟩⟩
+          refine ⟨st0, s1, old, cur, new, new, A, Or.inl ⟨rfl, Or.inl ?_⟩, hgr, A.slen, fun _ _ => rfl, ⟨rfl, rfl, rfl, rfl⟩⟩
           rintro ⟨e', he', hce'⟩
           rw [he] at he'
           cases he'
